@@ -77,6 +77,8 @@ pub enum Step {
     Resume { p: u8, pause: Option<u8> },
     /// drop every pool handle the harness owns (objects keep only weak references)
     DropPool,
+    /// status() run as an operation that parks at its `pause`-th schedule point
+    StatusAt { pause: u8 },
     /// retain(pred) is held inside its predicate (the pool's lock is taken) while `inner`
     /// is started on another thread; then both are let go
     Contend { pred: Pred, inner: Inner },
@@ -155,6 +157,7 @@ impl Step {
             Step::Resume { .. } => "Resume",
             Step::DropPool => "DropPool",
             Step::Contend { .. } => "Contend",
+            Step::StatusAt { .. } => "StatusAt",
         }
     }
     pub fn pause(&self) -> Option<u8> {
